@@ -30,6 +30,7 @@ type SpecDB struct {
 	Fns    map[string]*SpecFn
 	Files  []*SpecFile
 	Ghosts map[string]string // ghost heap name -> SMT sort ("; ghost name sort" lines in spec files)
+	StructInv map[string][]string // struct sort name -> SMT formulas over $v (data-structure invariants of dependencies)
 	Async  map[string]bool   // ghosts that may change at every channel operation ("; ghost-async name sort")
 }
 
@@ -171,7 +172,7 @@ func loadSpecFile(path string) (*SpecFile, []*SpecFn, error) {
 }
 
 func loadSpecs(verifDir string, names []string) (*SpecDB, error) {
-	db := &SpecDB{Fns: map[string]*SpecFn{}, Ghosts: map[string]string{}, Async: map[string]bool{}}
+	db := &SpecDB{Fns: map[string]*SpecFn{}, Ghosts: map[string]string{}, Async: map[string]bool{}, StructInv: map[string][]string{}}
 	for _, n := range names {
 		sf, fns, err := loadSpecFile(filepath.Join(verifDir, "spec", n))
 		if err != nil {
@@ -180,6 +181,12 @@ func loadSpecs(verifDir string, names []string) (*SpecDB, error) {
 		db.Files = append(db.Files, sf)
 		for _, line := range strings.Split(sf.Text, "\n") {
 			line = strings.TrimSpace(line)
+			if strings.HasPrefix(line, "; invariant ") {
+				f := strings.SplitN(strings.TrimPrefix(line, "; invariant "), " ", 2)
+				if len(f) == 2 {
+					db.StructInv[f[0]] = append(db.StructInv[f[0]], strings.TrimSpace(f[1]))
+				}
+			}
 			if strings.HasPrefix(line, "; ghost-async ") {
 				f := strings.SplitN(strings.TrimPrefix(line, "; ghost-async "), " ", 2)
 				if len(f) == 2 {
